@@ -318,7 +318,7 @@ def ast_dump(tu):
     db = compdb()
     if tu not in db:
         raise AnalysisBroken('translation unit %s not in compilation database' % tu)
-    src = os.path.join(REPO, tu)
+    src = os.path.join(REPO, tu.split('@')[0])
     cmd = [CLANG] + db[tu] + ['-w', '-fsyntax-only', '-fplugin=' + plugin_path(), '-Xclang', '-plugin',
                               '-Xclang', 'dumprepo', '-Xclang', '-plugin-arg-dumprepo', '-Xclang', REPO + '/', src]
     r = _run(cmd)
